@@ -386,7 +386,9 @@ def target(draw, with_other):
         el = draw(go.elements(hyperbolic=False, emax_ell=0.9, rp_range=(1.03, 10.0)))
         return dict(kind="inertial", frame=draw(st.sampled_from(INERTIAL)), el=el,
                     held=draw(st.sampled_from(HELD_INERTIAL)), **how)
-    return dict(kind="station", xyz=[draw(go.uniform(-1e6, 1e6)) for _ in range(3)], v=draw(velocity()), **how)
+    # (held in the other station's axes as a radar would give it: cartesian, or that station's range / azimuth / elevation)
+    return dict(kind="station", xyz=[draw(go.uniform(-1e6, 1e6)) for _ in range(3)], v=draw(velocity()),
+                held=draw(st.sampled_from(["cartesian", "cartesian", "spherical", "spherical", "cylindrical"])), **how)
 
 
 @st.composite
@@ -452,8 +454,10 @@ def site_case(draw, shard, tier):
 def measures_case(draw, shard, tier):
     site = draw(geodetic(shard))
     redef, mask = draw(redefinition(shard, site))
-    return dict(shard=shard, site=site, date=draw(date(shard)), redef=redef, mask=mask,
-                targets=draw(st.lists(target(False), min_size=1, max_size=8)),
+    # one case in three: some targets are handed over as states of ANOTHER station's frame (what its visibility() yields)
+    other = draw(geodetic(shard)) if draw(st.integers(0, 2)) == 0 else None
+    return dict(shard=shard, site=site, date=draw(date(shard)), redef=redef, mask=mask, other=other,
+                targets=draw(st.lists(target(other is not None), min_size=1, max_size=8)),
                 legs=draw(st.integers(1, 4)))
 
 
@@ -923,8 +927,10 @@ def check_measures(case):
         tmpl.from_orbit(warm)
     todo = list(enumerate(case["targets"]))
     todo.append(todo[0])
+    other = case.get("other")
+    other_fr = station(case["shard"], other["lat"], other["lon"], other["alt"], arg=other.get("arg")) if other else None
     for k, t in todo:
-        sv, p, v, labels = build_target(t, dt, site, triad, case["shard"], None, None)
+        sv, p, v, labels = build_target(t, dt, site, triad, case["shard"], other_fr, other)
         factor = held_conditioning(t, p, v, site)
         if factor is None:
             cls.append("skipped:station-conic")
